@@ -76,13 +76,15 @@ Definition core_eqb (a b : cdata) : bool :=
   N.eqb (c_src a) (c_src b) && N.eqb (c_root a) (c_root b) && N.eqb (c_start a) (c_start b) &&
   N.eqb (c_end a) (c_end b) && list_eqb N.eqb (c_exec a) (c_exec b).
 
-(* (i) the commit data was reported identically (full item) by f_j+1 distinct oracles under some chain key j *)
-Definition commit_agreed (fchain : list (N * Z)) (aos : list sao) (cd : cdata) : bool :=
-  existsb (fun kf =>
-    existsb (fun x => C8.cdata_eqb (xc_cd x) cd &&
-                      N.leb (f_plus_1 (snd kf))
-                            (reporters (fun o => existsb (xc_eqb x) (EM.entries (fst kf) (so_commits o))) aos))
-            (xcommits_at (fst kf) aos)) fchain.
+(* (i) the commit data was reported identically (full item) by f_dest+1 distinct oracles under the key of its own source
+   chain, a configured chain (after the repairs of F75) *)
+Definition commit_agreed (dest : N) (fchain : list (N * Z)) (aos : list sao) (cd : cdata) : bool :=
+  let k := c_src cd in
+  memN k (EM.keys fchain) &&
+  existsb (fun x => C8.cdata_eqb (xc_cd x) cd &&
+                    N.leb (f_plus_1 (EM.f_dest dest fchain))
+                          (reporters (fun o => existsb (xc_eqb x) (EM.entries k (so_commits o))) aos))
+          (xcommits_at k aos).
 (* (ii) the message was reported identically by f_k+1 distinct oracles under its own source chain key *)
 Definition msg_agreed (fchain : list (N * Z)) (aos : list sao) (k : N) (m : msg) : bool :=
   match thr_of fchain k with
@@ -140,7 +142,7 @@ Section SysProp.
     existsb (fun cd2 =>
       C8.owns cd2 r && C8.reverify h r (c_root cd2) &&                                  (* (b) *)
       existsb (fun cd1 =>
-        core_eqb cd1 cd2 && commit_agreed (rc_fchain r1) (rc_aos r1) cd1 &&             (* wiring, (i) *)
+        core_eqb cd1 cd2 && commit_agreed (s_dest g) (rc_fchain r1) (rc_aos r1) cd1 &&             (* wiring, (i) *)
         forallb (fun m => negb (memN (m_seq m) (c_exec cd1))) (r_msgs r))               (* (c) *)
         (o_pending (rc_out r1)) &&
       Nat.eqb (length (r_msgs r)) (length (r_td r)) &&
